@@ -148,6 +148,10 @@ class Gen:
                 P["rs"] = _r((P["rs"] or 0.05) * f, 4)
             elif cls == "VLoss" and not isinstance(P["vdrop"], dict):
                 P["vdrop"] = _r((P["vdrop"] or 0.1) * f, 4)
+        # the number type of a parameter must not matter: now and then an int (when the value is integral) or a numpy float
+        for k, v in list(P.items()):
+            if isinstance(v, float) and rng.random() < 0.06:
+                P[k] = int(v) if v == int(v) and abs(v) < 1e6 and k != "eff" else __import__("numpy").float64(v)
         lim = self.limits(cls, name, rng) if self.limits else None
         self.made[name] = {"cls": cls, "limits": copy.deepcopy(lim)}    # (a copy: a constructor must not be trusted to leave its argument alone)
         return {"cls": cls, "name": name, "params": P, "limits": lim}
